@@ -158,6 +158,8 @@ def features(E, ws=()):
                     lab.add('neg_exp')
                 if x != int(x):
                     lab.add('frac_exp')
+                    if 0.0 < abs(2 * x - round(2 * x)) / 2 <= 1.001e-3:
+                        lab.add('near_int_exp')     # 1e-13 ... 1e-3 away from a whole number, a half or zero (class E)
                 if X[0] != 'x':
                     lab.add('paren_exp')
             if F[0] == 'g':
@@ -177,6 +179,8 @@ def features(E, ws=()):
                     lab.add('lit_leading_dot')
                 if 'e' in lit or 'E' in lit:
                     lab.add('lit_exp_notation')
+                if float(lit) != 1.0 and abs(float(lit) - 1.0) <= 1.001e-3:
+                    lab.add('near_one_lit')         # a numeric factor 1e-13 ... 1e-3 away from one (class E)
 
     walk(E, 0)
     if st['maxdepth'] >= 2:
